@@ -1,5 +1,7 @@
 """Obligation registry: which harness / query serves which property at which tier."""
 import os
+import threading
+import time
 
 from . import kani as K
 from . import shapes as SH
@@ -89,6 +91,12 @@ UNITS = [
     unit("c09_data_from_bytes", ["C09"], PRINTER, "jsont::verif_kani",
          "jsont::Data::from_bytes on fully symbolic <=4 bytes: Text iff valid UTF-8 (independent validator), bytes preserved",
          ["jsont::Data::from_bytes"], timeout=900),
+    unit("c09_trim_line_terminator_crlf", ["C09"], PRINTER, "util::verif_kani",
+         "printer::util::trim_line_terminator in CRLF mode on a line anywhere in a fully symbolic <=5-byte buffer: exactly \\r\\n (or a lone \\n) is trimmed",
+         ["util::trim_line_terminator", "LineTerminator::is_suffix"], timeout=600),
+    unit("c09_trim_line_terminator_lf", ["C09"], PRINTER, "util::verif_kani",
+         "trim_line_terminator in LF mode on any range of a fully symbolic <=5-byte buffer: exactly a final \\n is trimmed",
+         ["util::trim_line_terminator"], timeout=600),
     unit("c10_find_iter_terminated", ["C10", "C19", "C09"], PRINTER, "util::verif_kani",
          "printer::util::find_iter_at_in_context on a terminated line with a symbolic span table == the pattern's successive "
          "matches in the line's content", ["util::find_iter_at_in_context", "util::trim_line_terminator", "Matcher::find_iter_at"], timeout=900),
@@ -115,6 +123,11 @@ UNITS = [
          "same on 'ax\\n\\nc' (blank line, unterminated last line)",
          ["SummarySink::matched", "util::find_iter_at_in_context"], timeout=1500, heavy=True, rules=printer_rules(), unwind=12,
          shape=SH.from_bytes("p_ax_c", b"ax\n\nc")),
+    unit("c10_json_submatches", ["C10"], PRINTER, "json::verif_kani",
+         "real searcher + real JSONSink (serde_json into a discarding writer) on 'ax\\nby\\n' with a symbolic per-line span table: "
+         "sum of submatch counts of the match messages (stats.matches) == matches inside the reported lines; one message per reported line",
+         ["JSONSink::matched", "JSONSink::record_matches", "JSONSink::begin", "JSONSink::finish", "util::find_iter_at_in_context",
+          "SliceByLine::run"], timeout=1500, heavy=True, rules=printer_rules(), unwind=12, shape=SH.from_bytes("p_axby", b"ax\nby\n"), tier="thorough"),
     unit("c02_linebuffer_stream_cap1", ["C02"], SEARCHER, "line_buffer::verif_kani",
          "LineBuffer fill/consume/roll/grow over a FULLY SYMBOLIC <=4-byte source, symbolic read sizes 1..=2, initial capacity "
          "1 / 3 (eager growth): the exposed stream is exactly the source (no byte lost, duplicated, reordered), final offset = length",
@@ -331,7 +344,7 @@ MULTI_FUNCS = ("MultiLine::run", "MultiLine::sink", "MultiLine::sink_matched_inv
                "Core::sink_matched", "Core::count_lines")
 GEN = "searcher/shapes_gen.rs"
 FAMILIES = [
-    ShapeFamily("c03_slice_ctx", ["C03", "C01"], SEARCHER, CORE_MOD, GEN,
+    ShapeFamily("c03_slice_ctx", ["C03", "C01", "C09"], SEARCHER, CORE_MOD, GEN,
                 "slow line path end-to-end (SliceByLine::run) == grep model; symbolic hit table, A,B in 0..=2, "
                 "invert, line numbers; passthru off, stop-on-nonmatch off",
                 SLOW_E2E_FUNCS, timeout=600, rules=searcher_rules(2)),
@@ -359,11 +372,11 @@ FAMILIES = [
     ShapeFamily("c16_fast_refuse", ["C16"], SEARCHER, CORE_MOD, GEN,
                 "fast line path: sink refuses at every call index k (enumerated): delivered == prefix + exactly one finish",
                 FAST_FUNCS, timeout=1200, rules=searcher_rules(2), unwind=lambda sh: 40,
-                quick_shapes=["q_two", "q_blank_mid", "q_crlf_mix"], shape_filter=lambda sh: sh.nl <= 3),
+                quick_shapes=["q_two", "q_blank_mid"], thorough_shapes=["q_crlf_mix", "q_blank_first", "q_nul"], shape_filter=lambda sh: sh.nl <= 3),
     ShapeFamily("c16_fast_error", ["C16"], SEARCHER, CORE_MOD, GEN,
                 "fast line path: sink fails at every call index k (enumerated): error returned, prefix, no finish",
                 FAST_FUNCS, timeout=1200, rules=searcher_rules(2), unwind=lambda sh: 40,
-                quick_shapes=["q_two", "q_blank_mid"], shape_filter=lambda sh: sh.nl <= 3),
+                quick_shapes=["q_two"], thorough_shapes=["q_blank_mid", "q_crlf_mix"], shape_filter=lambda sh: sh.nl <= 3),
     ShapeFamily("c01_find_by_line_fast", ["C01", "C03"], SEARCHER, CORE_MOD, GEN,
                 "Core::find_by_line_fast from a symbolic line-start position with fully symbolic hit/candidate/offset tables "
                 "and symbolic reporting mode (Confirmed/Candidate): returns exactly the first matching line's range",
@@ -398,7 +411,7 @@ FAMILIES = [
               "one binary notice at the first NUL; hit patterns x invert enumerated, (A,B)=(1,1), fragmentation (2,3)",
               READER_FUNCS + ("line_buffer::replace_bytes",), timeout=1500, rules=searcher_rules(2), two=True, skip=("n_mid",),
               unwind=lambda sh: 40),
-    ShapeFamily("c02_reader_tiny", ["C02"], SEARCHER, CORE_MOD, GEN,
+    ShapeFamily("c02_reader_tiny", ["C02", "C09"], SEARCHER, CORE_MOD, GEN,
                 "ReadByLine over LineBufferReader, capacity 1 / 1-byte reads (a roll and a grow at every byte) == grep model "
                 "(== slice strategy); hit patterns x (A,B) in {(0,0),(1,1)} enumerated in-harness; line numbering symbolic",
                 READER_FUNCS, timeout=1500, rules=searcher_rules(2), unwind=lambda sh: 40,
@@ -430,7 +443,7 @@ FAMILIES = [
     ShapeFamily("c16_slice", ["C16"], SEARCHER, CORE_MOD, GEN,
                 "slice strategy: sink refuses (stop) or fails at symbolic event index k: delivered == prefix of full "
                 "stream (+ exactly one finish after stop, none after error); symbolic hit table and configuration (A,B<=1)",
-                SLOW_E2E_FUNCS, heavy=True, timeout=900, rules=searcher_rules(2), quick_shapes=["q_one", "q_two", "q_blank_mid", "q_crlf_mix"], shape_filter=lambda sh: sh.nl <= 3 and len(sh.hay) <= 7),
+                SLOW_E2E_FUNCS, heavy=True, timeout=900, rules=searcher_rules(2), quick_shapes=["q_one", "q_two"], thorough_shapes=["q_blank_mid", "q_crlf_mix", "q_blank"], shape_filter=lambda sh: sh.nl <= 3 and len(sh.hay) <= 7),
     ShapeFamily("c16_slice_before1", ["C16"], SEARCHER, CORE_MOD, GEN,
                 "slice strategy, contexts fixed to (A,B)=(0,1) (a separator ahead of a before-context line needs 4 lines): sink refuses or "
                 "fails at symbolic event index k, symbolic hit table: prefix property",
@@ -464,13 +477,13 @@ FAMILIES = [
                 MULTI_FUNCS, heavy=True, timeout=1500, rules=multi_rules(2), unwind=lambda sh: 800,
                 quick_shapes=["q_one_unterm", "q_one", "m_two_unterm", "q_two"], thorough_shapes=[]),
     ShapeFamily("c16_multiline_refuse", ["C16"], SEARCHER, CORE_MOD, GEN,
-                "multi-line strategy: sink refuses at every call index k (enumerated) for every span table: prefix + exactly one finish",
+                "multi-line strategy: sink refuses at every call index k (enumerated) for every span table (<=2 bytes) / every table with one match start, x {contexts (1,1), inverted, passthru}: prefix + exactly one finish",
                 MULTI_FUNCS, heavy=True, timeout=1500, rules=multi_rules(2), unwind=lambda sh: 800,
-                quick_shapes=["q_one", "m_two_unterm", "q_two"], thorough_shapes=[]),
+                quick_shapes=["m_two_unterm", "q_two"], thorough_shapes=["q_one"]),
     ShapeFamily("c16_multiline_error", ["C16"], SEARCHER, CORE_MOD, GEN,
                 "multi-line strategy: sink fails at every call index k (enumerated): error returned, prefix, no finish",
                 MULTI_FUNCS, heavy=True, timeout=1500, rules=multi_rules(2), unwind=lambda sh: 800,
-                quick_shapes=["q_one", "m_two_unterm"], thorough_shapes=[]),
+                quick_shapes=["m_two_unterm"], thorough_shapes=["q_one", "q_two"]),
 ]
 
 
@@ -485,6 +498,10 @@ QUICK_ONLY = {
         "c03_fast_confirmed": {"q_two", "q_crlf_mix"},
         "c03_fast_candidate_all": {"q_two", "q_blank_mid", "q_crlf_mix"},
         "c03_fast_stop": None,
+    },
+    "C09": {
+        "c03_slice_ctx": {"q_two", "q_crlf_mix", "q_blank_mid", "q_one_unterm"},
+        "c02_reader_tiny": {"q_two", "q_crlf_blank"},
     },
     "C03": {
         "c01_find_by_line_fast": {"q_two", "q_blank_mid", "q_crlf_mix"},
@@ -551,7 +568,12 @@ def run_kani(group, ctx):
         for crate, obls in by_crate.items():
             for o in obls:
                 groups.setdefault((crate, o.bucket if o.rules else "", bool(getattr(o, "heavy", False))), []).append(o)
-        for (crate, bucket, heavy), obls in sorted(groups.items()):
+        # Two lanes run side by side, each with its own cargo target directory
+        # (concurrent cargo-kani invocations cannot share one): lane L takes the
+        # ordinary groups (<= 6 GB per CBMC), lane H the heavy ones (<= 13 GB,
+        # few at a time).  Within a lane groups run one after the other.
+        def prepare(key, obls):
+            crate, bucket, heavy = key
             # biggest shapes first so the tail of the schedule is short
             obls = sorted(obls, key=lambda o: -(len(o.shape.hay) if o.shape else 0))
             tmo = max(o.timeout for o in obls)
@@ -571,10 +593,66 @@ def run_kani(group, ctx):
                 for o in obls:
                     seen_fn.setdefault(o.fn, o.harness)
                 probes = list(seen_fn.values())
-            res = sc.run(crate, [o.harness for o in obls], jobs=(min(4, ctx["jobs"]) if heavy else ctx["jobs"]),
-                         harness_timeout=tmo, unwind_rules=rules, probes=probes, mem_gb=(13 if heavy else 6))
-            cbmc_args = list(sc.last_cbmc_args)
-            unwindset_used = list(sc.last_unwindset)
+            return crate, heavy, obls, tmo, rules, probes
+
+        lanes = {False: [], True: []}
+        for key, obls in sorted(groups.items()):
+            lanes[key[2]].append(prepare(key, obls))
+        both = bool(lanes[False]) and bool(lanes[True])
+        J = ctx["jobs"]
+        lane_jobs = {False: (max(2, J - 4) if both else J), True: (min(3, J) if both else min(4, J))}
+        done = []
+        stop_guard = threading.Event()
+
+        def mem_guard():
+            # no swap on this machine: if available memory falls under 4 GB, the
+            # largest CBMC of THIS run is killed (its obligation becomes
+            # inconclusive -- never a pass) rather than letting the kernel pick
+            while not stop_guard.wait(3.0):
+                try:
+                    avail = 0
+                    for ln in open("/proc/meminfo"):
+                        if ln.startswith("MemAvailable:"):
+                            avail = int(ln.split()[1])
+                    if avail and avail < 4 * 1024 * 1024:
+                        best = (0, None)
+                        for pid in os.listdir("/proc"):
+                            if not pid.isdigit():
+                                continue
+                            try:
+                                cl = open("/proc/%s/cmdline" % pid, "rb").read()
+                                if b"cbmc" not in cl.split(b"\0")[0] or sc.root.encode() not in cl:
+                                    continue
+                                rss = int(open("/proc/%s/statm" % pid).read().split()[1])
+                                if rss > best[0]:
+                                    best = (rss, int(pid))
+                            except Exception:
+                                continue
+                        if best[1]:
+                            K.log("memory guard: killing cbmc pid %d (rss %d MB)" % (best[1], best[0] * 4 // 1024))
+                            os.kill(best[1], 9)
+                            time.sleep(5)
+                except Exception:
+                    pass
+
+        def run_lane(heavy):
+            target = os.path.join(sc.root, "target-H" if heavy else "target")
+            for crate, hv, obls, tmo, rules, probes in lanes[heavy]:
+                meta = {}
+                res = sc.run(crate, [o.harness for o in obls], jobs=lane_jobs[heavy], harness_timeout=tmo,
+                             unwind_rules=rules, probes=probes, mem_gb=(13 if heavy else 6), target=target, meta=meta)
+                done.append((crate, obls, res, list(meta.get("cbmc_args", [])), list(meta.get("unwindset", []))))
+
+        th = [threading.Thread(target=run_lane, args=(h,)) for h in (False, True) if lanes[h]]
+        g = threading.Thread(target=mem_guard, daemon=True)
+        g.start()
+        for t in th:
+            t.start()
+        for t in th:
+            t.join()
+        stop_guard.set()
+        # results and (sequential) playbacks
+        for crate, obls, res, cbmc_args, unwindset_used in done:
             for o in obls:
                 hr = res[o.harness]
                 r = hr.to_json()
